@@ -18,7 +18,7 @@ RULE = ("data tables of 0..25 rows on strictly increasing whole-second axes, 1..
         "(gross_range, spike, rate_of_change, flat_line, attenuated, climatology, density_inversion, location, speed, "
         "pressure_increasing, valid_range) plus two probe tests registered at run time that record the arrays they are "
         "handed. front ends: PandasStream, NumpyStream(dict), NumpyStream(array), XarrayStream (time as dimension "
-        "coordinate / as data variable), NetcdfStream(Dataset), QcConfig.run. oracle: the multiset of (stream, test, row "
+        "coordinate / as data variable / from a netCDF-3 file path), NetcdfStream(Dataset / file path), QcConfig.run. oracle: the multiset of (stream, test, row "
         "mask, flags) where row mask = {starting <= t < ending} and flags = the test function called directly on those "
         "rows; probes must have received exactly the restricted inp/tinp/zinp/lat/lon. non-trivial: a window excludes >=1 "
         "row and the context holds a neighbour- or time-dependent test, or a row lies exactly on `ending`, or the index is "
@@ -28,7 +28,8 @@ ASSUMPTIONS = [
     "only tests whose required inputs the table supplies are configured here (C18 covers the others)",
     "the direct calls use float64 / datetime64[ns] arrays; carrier independence is C15's subject",
 ]
-FRONTENDS = ["pandas", "numpy_dict", "numpy_array", "xarray_coord", "xarray_var", "netcdf", "qcconfig"]
+FRONTENDS = ["pandas", "numpy_dict", "numpy_array", "xarray_coord", "xarray_var", "netcdf", "qcconfig", "netcdf_path",
+             "xarray_path"]
 NEIGHBOUR = {"spike_test", "rate_of_change_test", "flat_line_test", "attenuated_signal_test", "density_inversion_test",
              "speed_test", "pressure_increasing_test", "location_test"}
 
@@ -160,6 +161,22 @@ def run_frontend(fe, case):
         if fe == "netcdf":
             ds = sg.make_xr(tbl, "coord")
             return observe(list(NetcdfStream(ds).run(Config(cfg)))), None
+        if fe in ("netcdf_path", "xarray_path"):
+            # a netCDF-3 file on disk (scipy engine); time stored as seconds since the Unix epoch, which is what
+            # NetcdfStream (decode_cf=False) assumes
+            import os
+            import tempfile
+            ds = sg.make_xr(tbl, "coord")
+            d = tempfile.mkdtemp(prefix="vf_c05_")
+            path = os.path.join(d, "data.nc")
+            try:
+                enc = {"time": {"units": "seconds since 1970-01-01 00:00:00", "dtype": "float64"}} if tbl["t"] is not None else {}
+                ds.to_netcdf(path, engine="scipy", encoding=enc)
+                cls = NetcdfStream if fe == "netcdf_path" else XarrayStream
+                return observe(list(cls(path).run(Config(cfg)))), None
+            finally:
+                import shutil
+                shutil.rmtree(d, ignore_errors=True)
     raise ValueError(fe)
 
 
@@ -257,7 +274,7 @@ def check_stream(case, rec):
             continue
         site = {"pandas": "PandasStream.run", "numpy_dict": "NumpyStream.run(dict)", "numpy_array": "NumpyStream.run(array)",
                 "xarray_coord": "XarrayStream.run", "xarray_var": "XarrayStream.run(time as data variable)",
-                "netcdf": "NetcdfStream.run"}[fe]
+                "netcdf": "NetcdfStream.run", "netcdf_path": "NetcdfStream.run(path)", "xarray_path": "XarrayStream.run"}[fe]
         del sg.PROBE_LOG[:]
         try:
             got, single = run_frontend(fe, case)
@@ -276,9 +293,9 @@ def check_stream(case, rec):
             kind = "count" if len(got) != len(want) else "content"
             sub_differs = sorted(canon(g["mask"]) for g in got) != sorted(canon(w["mask"]) for w in want)
             explained = []
-            if fe in ("xarray_coord", "xarray_var") and sub_differs:
+            if fe in ("xarray_coord", "xarray_var", "xarray_path") and sub_differs:
                 dev = set()
-                alt, _ = expected(case, single, "coord" if fe == "xarray_coord" else "var", dev)
+                alt, _ = expected(case, single, "var" if fe == "xarray_var" else "coord", dev)
                 if ms(alt) == ms(got):
                     explained = sorted(dev)
             rec.fail(site, f"ContextResults differ from the direct calls on the window rows ({kind})",
